@@ -113,6 +113,19 @@ def check_tables(ctx):
         except NotFoldable as e:
             raise AnalysisError("Controlled.__init__: the block of a daggered target is outside the foldable vocabulary: %s" % e)
         ctx.ob("R11.3", GATES + ".Controlled.__init__:daggered-target", okd, found=found, required="the conjugate transpose of the array of the gate the target is the dagger of", mod=GATES, node=te, sig="controlled-dagger-block")
+        # the block already is the adjoint for a daggered target: the controlled gate itself must not be flagged as a dagger as well, and its dagger
+        # is the controlled dagger of the target (not a flag flip on the same array)
+        sup = next((c for c in ast.walk(fn) if isinstance(c, ast.Call) and ast.unparse(c.func) == "super().__init__"), None)
+        ctx.need(sup is not None, "Controlled.__init__ does not call super().__init__")
+        flagkw = [ast.unparse(k.value) for k in sup.keywords if k.arg == "_dagger"] + [ast.unparse(a) for a in sup.args[4:5]]
+        ctx.ob("R11.3", GATES + ".Controlled.__init__:own-flag", all(v in ("False", "None") for v in flagkw), found="super().__init__(..., _dagger=%s)" % flagkw[0] if flagkw else "no dagger flag passed",
+               required="the controlled gate is built undaggered: its array already contains the adjoint block of a daggered target", mod=GATES, node=sup, sig="controlled-own-flag")
+        C = m.cls(GATES + ".Controlled")
+        dg = C.methods.get("dagger")
+        okdg = dg is not None and shape.key(ret_expr(dg[0].body)) in (shape.key(shape.parse("Controlled(self.controlled.dagger(), distance=self.distance)")),
+                                                                        shape.key(shape.parse("Controlled(self.controlled.dagger(), self.distance)")))
+        ctx.ob("R11.3", GATES + ".Controlled.dagger", okdg, found=ast.unparse(ret_expr(dg[0].body)) if dg else "inherits QuantumGate.dagger (a flag flip on the same array)",
+               required="Controlled(self.controlled.dagger(), distance=self.distance)", mod=GATES, node=dg[0] if dg else C.node, sig="controlled-dagger")
     else:
         ctx.ob("R11.3", GATES + ".Controlled.__init__:daggered-target", False, found=ast.unparse(te) if te is not None else None, required="a daggered target (same array, flag set) contributes the adjoint of its array", mod=GATES, node=fn,
                sig="controlled-dagger-block")
@@ -436,6 +449,7 @@ def check(ctx):
     check_eval_and_states(ctx)
     check_rewire(ctx)
     ctx.rule("R11.7", "the pure evaluation is the tensor functor whose loop invariant and flag discipline are decided by C09; bras, kets and gates are daggered as C02 R02.4 requires")
+    ctx.depend("R11.7", "C08", "the adjoint of an evaluated gate is the conjugate transpose of its matrix (Tensor.dagger exchanges the dom and cod blocks and conjugates)", rules={"R08.3"}, mod="discopy.tensor")
     ctx.depend("R11.7", "C10", "rewire conjugates the gate by Box.permutation, circuits are permuted with Circuit.swap / permutation: each realises the requested permutation", mod="discopy.monoidal")
     ctx.depend("R11.7", "C09", "eval() applies tensor.Functor layer by layer: each box is contracted on the axes of its own wires", rules={"R09.1", "R09.2"}, mod="discopy.tensor")
     from .c02 import check_daggers
